@@ -402,6 +402,29 @@ func execOp(line string) string {
 		})
 	case "itemlen":
 		return guarded(func() string { return fmt.Sprintf("ok %d", getItem(NewR(args)).Len()) })
+	case "dst2":
+		// decode A, take DestinationSSRC, decode B into the same value, take it again: the first list must not change
+		f := strings.Fields(args)
+		if len(f) != 2 {
+			return "bad-op dst2"
+		}
+		a, b := exactCap(unhexOr(f[0])), exactCap(unhexOr(f[1]))
+		return guarded(func() string {
+			p := newPacket(kind)
+			if err := p.Unmarshal(a); err != nil {
+				return "err"
+			}
+			d1 := p.DestinationSSRC()
+			snap := append([]uint32{}, d1...)
+			if err := p.Unmarshal(b); err != nil {
+				return dstLine(snap) + " ; err"
+			}
+			d2 := p.DestinationSSRC()
+			if kind != "REMB" && !eqU32(d1, snap) {
+				return "mutated list-returned-by-an-earlier-DestinationSSRC"
+			}
+			return dstLine(snap) + " ; " + dstLine(d2)
+		})
 	case "plist2":
 		// the same NackPair value read twice: PacketList, a Range stopped at its k-th call, PacketList again
 		return guarded(func() string {
